@@ -16,7 +16,7 @@ static const char* const OPN[] = { "create", "decode", "decode_explicit", "load"
 typedef struct ival { uint32_t op; uint64_t c, r; } ival;
 typedef struct tctx {
     int tid; uint64_t script_seed, yield_seed; int nops; int yield_pct; bool concurrent;
-    uint64_t digest; uint64_t opcount[OP_N]; uint64_t model_mismatch; char first_mismatch[256];
+    int table_kind; uint64_t digest; uint64_t opcount[OP_N]; uint64_t model_mismatch; char first_mismatch[256];
     ival* iv; int niv;
 } tctx;
 static uint64_t g_clk;
@@ -49,7 +49,10 @@ static void* worker(void* p) {
             uint8_t script[19]; pv_randbytes(&r, script, 19); pv_set_rand_script(script, 19);
             pv_w->time_value = PV_EPOCH + pv_rand64(&r) % (1024 * PV_STEP);
             unsigned f = pv_randn(&r, 4);
+            if (c->table_kind) pv_in_lib = 1;             /* lets the interposed libc time() return the scripted value */
             int st = polyseed_create(f, &S[sl]);
+            pv_in_lib = 0;
+            if (c->table_kind) pv_w->time_value = (uint64_t)pv_wrap_time_value;
             T = pv_mix(T, (uint64_t)st);
             if (st == POLYSEED_OK) { memcpy(M[sl].secret, script, 19); M[sl].secret[18] &= 0x3f; M[sl].birthday = pv_m_birthday_of(pv_w->time_value); M[sl].features = f; } else S[sl] = NULL;
             break; }
@@ -120,6 +123,13 @@ static int cmp_ev(const void* a, const void* b) { const uint64_t* x = a; const u
 static uint64_t n_rounds(void) { return pv_scaled(3, 5) * 2; }
 static void run_rounds(uint64_t idx, pv_rng* rng) {
     int nt = (idx & 1) ? 16 : 8;
+    /* which dependency table the threads run under: all entries injected / libc clock / libc clock + malloc + free
+     * ("once dependencies are injected" covers every valid table, and the libc fall-backs are library code too) */
+    int kind = (int)(idx % 3);
+    { polyseed_dependency t; pv_world_table(&t, 0, kind == 0, kind != 2, kind != 2); pv_api_inject(&t); pv_api_enable_features(3);
+      pv_wrap_time_scripted = kind != 0; pv_wrap_time_value = (time_t)(PV_EPOCH + 321 * PV_STEP + 12345); }
+    static const char* const KN[3] = { "all-entries-injected", "time-NULL(libc-clock)", "time+alloc+free-NULL(libc)" };
+    pv_countf(1, "rounds.table.%s", KN[kind]);
     int nops = (int)pv_scaled(4000, 20000); if (nt == 16) nops = nops * 2 / 3;
     static tctx solo[MAXT], conc[MAXT];
     pv_world* mainw = pv_w;
@@ -131,7 +141,7 @@ static void run_rounds(uint64_t idx, pv_rng* rng) {
     /* the concurrent phase comes FIRST: every shard is a fresh process, so anything the library initialises lazily is
      * initialised under contention here */
     for (int t = 0; t < nt; ++t) {
-        memset(&solo[t], 0, sizeof solo[t]); solo[t].tid = t; solo[t].script_seed = base + (uint64_t)t * 1315423911u; solo[t].nops = nops; solo[t].concurrent = false;
+        memset(&solo[t], 0, sizeof solo[t]); solo[t].tid = t; solo[t].script_seed = base + (uint64_t)t * 1315423911u; solo[t].nops = nops; solo[t].concurrent = false; solo[t].table_kind = kind;
         conc[t] = solo[t]; conc[t].concurrent = true; conc[t].yield_pct = 20; conc[t].yield_seed = base ^ idx; conc[t].digest = 0; conc[t].model_mismatch = 0;
         memset(conc[t].opcount, 0, sizeof conc[t].opcount);
         conc[t].iv = malloc(sizeof(ival) * (size_t)(nops * 2 + 8)); conc[t].niv = 0;
@@ -173,6 +183,7 @@ static void run_rounds(uint64_t idx, pv_rng* rng) {
         else if (overlapping > 0) { PV_DISTINCT("nontrivial", pv_mix(solo[t].script_seed, idx * 64 + (uint64_t)t)); PV_COUNT("threads.digest_equal_to_solo", 1); }
         free(conc[t].iv);
     }
+    pv_wrap_time_scripted = 0;
     pv_countf(1, "rounds.%d_threads", nt);
     pv_sample("round", "round %llu: %d threads x %d operations, %llu overlapping call pairs of different threads, all digests %s", (unsigned long long)idx, nt, nops, (unsigned long long)overlapping, "compared with solo runs");
 }
